@@ -79,6 +79,9 @@ def eval_cases(prop, stream, cases):
     for cid, (m, im) in res.items():
         fields = fmap[cid]
         why = prop.oracle(stream, fields, im)
+        if not why and m != im and stream in getattr(prop, "spec_streams", ()):
+            # the model side of this stream is the specification (a theorem's right-hand side)
+            why = "implementation differs from the specified result for this input"
         if why:
             fails.append((cid, fields, "oracle", why, m, im))
         elif m != im:
